@@ -5,11 +5,11 @@ package wire
 
 import (
 	"crypto/rand"
-	mrand "math/rand"
 	"encoding/hex"
 	"flag"
 	"fmt"
 	"io"
+	mrand "math/rand"
 	"net"
 	"os"
 	"sync"
